@@ -1,0 +1,107 @@
+//go:build verif
+
+// Contracts for the deductive verification of this package (see /verif/DESIGN.md).
+// Comment-only file: with the build tag off it does not exist for the compiler.
+
+package jsonpath
+
+// ---------------------------------------------------------------------------------------
+// C11: index and slice arithmetic (Python slice semantics, written independently of the code)
+// ---------------------------------------------------------------------------------------
+
+//@ spec pyClampP(v int, n int) int = v < 0 ? (v + n < 0 ? 0 : v + n) : (v > n ? n : v)
+//@ spec pyClampN(v int, n int) int = v < 0 ? (v + n < 0 ? 0 - 1 : v + n) : (v >= n ? n - 1 : v)
+//@ spec pyLoP(s *syntaxSlicePositiveStepSubscript, n int) int = s.start.isOmitted ? 0 : pyClampP(s.start.number, n)
+//@ spec pyHiP(s *syntaxSlicePositiveStepSubscript, n int) int = s.end.isOmitted ? n : pyClampP(s.end.number, n)
+//@ spec pyLoN(s *syntaxSliceNegativeStepSubscript, n int) int = s.start.isOmitted ? n - 1 : pyClampN(s.start.number, n)
+//@ spec pyHiN(s *syntaxSliceNegativeStepSubscript, n int) int = s.end.isOmitted ? 0 - 1 : pyClampN(s.end.number, n)
+
+//@ func (*syntaxSlicePositiveStepSubscript).getNormalizedValue
+//@   props C11 C03 C01
+//@   requires srcLength >= 0
+//@   ensures value: ret == pyClampP(value, srcLength)
+//@   pure
+
+//@ func (*syntaxSlicePositiveStepSubscript).getLoopStart
+//@   props C11 C03 C01
+//@   requires srcLength >= 0 && s != nil && s.start != nil
+//@   ensures value: ret == pyLoP(s, srcLength)
+//@   pure
+
+//@ func (*syntaxSlicePositiveStepSubscript).getLoopEnd
+//@   props C11 C03 C01
+//@   requires srcLength >= 0 && s != nil && s.end != nil
+//@   ensures value: ret == pyHiP(s, srcLength)
+//@   pure
+
+//@ func (*syntaxSlicePositiveStepSubscript).getIndexes
+//@   props C11 C03 C01
+//@   requires srcLength >= 0 && s != nil && s.start != nil && s.end != nil && s.step != nil
+//@   ensures inrange: forall k :: 0 <= k && k < len(ret) ==> 0 <= ret[k] && ret[k] < srcLength
+//@   ensures empty: (s.step.number <= 0 || pyLoP(s, srcLength) >= pyHiP(s, srcLength)) ==> len(ret) == 0
+//@   ensures first: (s.step.number > 0 && pyLoP(s, srcLength) < pyHiP(s, srcLength)) ==> len(ret) >= 1 && ret[0] == pyLoP(s, srcLength)
+//@   ensures succ: forall k :: 0 <= k && k + 1 < len(ret) ==> ret[k+1] == ret[k] + s.step.number
+//@   ensures bounded: forall k :: 0 <= k && k < len(ret) ==> ret[k] < pyHiP(s, srcLength)
+//@   ensures maximal: len(ret) >= 1 ==> ret[len(ret)-1] + s.step.number >= pyHiP(s, srcLength)
+//@   ensures fresh: fresh(ret)
+//@   loop 1 invariant 0 <= index && index <= srcLength && loopStart <= i && 0 <= loopStart && loopEnd <= srcLength
+//@   loop 1 invariant index == 0 ==> i == loopStart
+//@   loop 1 invariant index > 0 ==> result[0] == loopStart && i == result[index-1] + s.step.number
+//@   loop 1 invariant index <= i - loopStart
+//@   loop 1 invariant forall k :: 0 <= k && k < index ==> loopStart <= result[k] && result[k] < loopEnd
+//@   loop 1 invariant forall k :: 0 <= k && k + 1 < index ==> result[k+1] == result[k] + s.step.number
+//@   loop 1 decreases loopEnd - i
+
+//@ func (*syntaxSliceNegativeStepSubscript).getNormalizedValue
+//@   props C11 C03 C01
+//@   requires srcLength >= 0
+//@   ensures value: ret == pyClampN(value, srcLength)
+//@   pure
+
+//@ func (*syntaxSliceNegativeStepSubscript).getLoopStart
+//@   props C11 C03 C01
+//@   requires srcLength >= 0 && s != nil && s.start != nil
+//@   ensures value: ret == pyLoN(s, srcLength)
+//@   pure
+
+//@ func (*syntaxSliceNegativeStepSubscript).getLoopEnd
+//@   props C11 C03 C01
+//@   requires srcLength >= 0 && s != nil && s.end != nil
+//@   ensures value: ret == pyHiN(s, srcLength)
+//@   pure
+
+//@ func (*syntaxSliceNegativeStepSubscript).getIndexes
+//@   props C11 C03 C01
+//@   requires srcLength >= 0 && s != nil && s.start != nil && s.end != nil && s.step != nil
+//@   ensures inrange: forall k :: 0 <= k && k < len(ret) ==> 0 <= ret[k] && ret[k] < srcLength
+//@   ensures empty: (s.step.number >= 0 || pyLoN(s, srcLength) <= pyHiN(s, srcLength)) ==> len(ret) == 0
+//@   ensures first: (s.step.number < 0 && pyLoN(s, srcLength) > pyHiN(s, srcLength)) ==> len(ret) >= 1 && ret[0] == pyLoN(s, srcLength)
+//@   ensures succ: forall k :: 0 <= k && k + 1 < len(ret) ==> ret[k+1] == ret[k] + s.step.number
+//@   ensures bounded: forall k :: 0 <= k && k < len(ret) ==> ret[k] > pyHiN(s, srcLength)
+//@   ensures maximal: len(ret) >= 1 ==> ret[len(ret)-1] + s.step.number <= pyHiN(s, srcLength)
+//@   ensures fresh: fresh(ret)
+//@   loop 1 invariant 0 <= index && index <= srcLength && loopStart >= i && loopStart <= srcLength - 1 && loopEnd >= 0 - 1
+//@   loop 1 invariant index == 0 ==> i == loopStart
+//@   loop 1 invariant index > 0 ==> result[0] == loopStart && i == result[index-1] + s.step.number
+//@   loop 1 invariant index <= loopStart - i
+//@   loop 1 invariant forall k :: 0 <= k && k < index ==> loopStart >= result[k] && result[k] > loopEnd
+//@   loop 1 invariant forall k :: 0 <= k && k + 1 < index ==> result[k+1] == result[k] + s.step.number
+//@   loop 1 decreases i - loopEnd
+
+//@ func (*syntaxIndexSubscript).getIndexes
+//@   props C11 C03 C01
+//@   requires srcLength >= 0 && i != nil
+//@   ensures front: (0 <= i.number && i.number < srcLength) ==> len(ret) == 1 && ret[0] == i.number
+//@   ensures back: (i.number < 0 && i.number + srcLength >= 0) ==> len(ret) == 1 && ret[0] == i.number + srcLength
+//@   ensures none: (i.number >= srcLength || i.number + srcLength < 0) ==> len(ret) == 0
+//@   ensures inrange: forall k :: 0 <= k && k < len(ret) ==> 0 <= ret[k] && ret[k] < srcLength
+//@   ensures fresh: fresh(ret)
+
+//@ func (*syntaxWildcardSubscript).getIndexes
+//@   props C11 C03 C01
+//@   requires srcLength >= 0
+//@   ensures all: len(ret) == srcLength && forall k :: 0 <= k && k < srcLength ==> ret[k] == k
+//@   ensures fresh: fresh(ret)
+//@   loop 1 invariant 0 <= index && index <= srcLength
+//@   loop 1 invariant forall k :: 0 <= k && k < index ==> result[k] == k
+//@   loop 1 decreases srcLength - index
